@@ -193,10 +193,47 @@ def runAlgo (k : Nat) (tv : String → Vec) (algo : Algo) (t : T) : A :=
   | .acctran => acctran k none (upA k tv t)
   | .none => upA k tv t
 
+/- ## a tree rooted at a tip -/
+
+/-- Repaired finding ParsimonyRootIsTip (fix 2ef38ab): for Go a root with ONE neighbour is `Tip()`; `parsimonyUPPASS`
+    treated it as a leaf and never descended (steps 0, every other node left without state).  Since the fix
+    `ParsimonyAcr`/`ParsimonyAsr` start the passes from the root's neighbour.  `true` = the code as it is now;
+    the pinned behaviour is `runCharRootTipPinned` (witness theorem `root_is_tip_pinned_fails`). -/
+def rootTipFixedInRepo : Bool := true
+
+/-- the root has one neighbour, and that neighbour is not itself a tip -/
+def tipRooted (t : T) : Bool :=
+  match t.kids with
+  | [(_, c)] => !c.kids.isEmpty
+  | _ => false
+
+/-- the same tree seen from the root's neighbour: the old root is its last child, a leaf -/
+def rootAtNeighbour (t : T) : T :=
+  match t.kids with
+  | [(e, .node d _ cks)] => .node d 0 (cks ++ [(e, .node t.d 0 [])])
+  | _ => t
+
+/-- pre-order of `rootAtNeighbour t` (neighbour, its subtrees, old root) back to the pre-order of `t` -/
+def backOrder {α : Type} (l : List α) : List α :=
+  match l.getLast? with
+  | some x => x :: l.dropLast
+  | none => l
+
+/-- the pinned behaviour on a tree rooted at a tip: the root is a leaf for `parsimonyUPPASS`, nothing else is visited -/
+def runCharRootTipPinned (k : Nat) (tv : String → Vec) (t : T) : Nat × List Vec :=
+  (0, tv t.name :: List.replicate (t.size - 1) (vzero k))
+
+/-- what the passes compute when they start from the root's neighbour (proposed fix) -/
+def runCharAtNeighbour (k : Nat) (tv : String → Vec) (algo : Algo) (t : T) : Nat × List Vec :=
+  (upN k tv (rootAtNeighbour t), backOrder (runAlgo k tv algo (rootAtNeighbour t)).flat)
+
 /-- steps and final slices (pre-order) of one character.  A root with exactly one
-    neighbour is `Tip()` for Go: it gets its own slice, nothing else is visited. -/
+    neighbour is `Tip()` for Go: it gets its own slice, nothing else is visited (pinned behaviour);
+    after the fix the passes run from the neighbour. -/
 def runChar (k : Nat) (tv : String → Vec) (algo : Algo) (t : T) : Nat × List Vec :=
-  if t.kids.length == 1 then (0, tv t.name :: List.replicate (t.size - 1) (vzero k))
+  if t.kids.length == 1 then
+    if rootTipFixedInRepo && tipRooted t then runCharAtNeighbour k tv algo t
+    else runCharRootTipPinned k tv t
   else (upN k tv t, (runAlgo k tv algo t).flat)
 
 /- ## ACR: alphabet, tip slices, output -/
@@ -250,7 +287,8 @@ structure AcrOut where
 
 /-- the names the up-pass looks up: every tip; but when the root itself is a Go tip (one
     neighbour) the recursion stops there and only the root's name is looked up -/
-def lookedUp (t : T) : List String := if t.kids.length == 1 then [t.name] else t.tipNames
+def lookedUp (t : T) : List String :=
+  if t.kids.length == 1 && !(rootTipFixedInRepo && tipRooted t) then [t.name] else t.tipNames
 
 /-- `ParsimonyAcr(t, tipCharacters, algo, false)`; `none` = it returns an error -/
 def acr (t : T) (m : List (String × String)) (algo : Algo) : Option AcrOut :=
